@@ -477,6 +477,7 @@ func (g *gen) structType(gp gap, depth int) {
 func (g *gen) field(gp gap, depth int) bool {
 	g.open("field")
 	defer g.close()
+	nestedStruct := false
 	switch g.r.Pick(12, 2, 1, 1, 2) {
 	case 1: // several names
 		g.f("field-multi-name")
@@ -514,6 +515,7 @@ func (g *gen) field(gp gap, depth int) bool {
 			break
 		}
 		g.f("field-nested-struct")
+		nestedStruct = true
 		g.t(gp, g.upperIdent())
 		switch g.r.Pick(6, 2, 1, 1) {
 		case 0:
@@ -543,7 +545,14 @@ func (g *gen) field(gp gap, depth int) bool {
 	}
 	if g.r.Chance(0.7) {
 		g.open("tag")
-		g.t(gSpace, g.tag())
+		if nestedStruct && g.r.Chance(0.35) {
+			// after the closing brace of a nested struct the tag may follow on the next line
+			// (and a comment may sit behind the brace)
+			g.f("tag-after-nested-struct-free")
+			g.t(gFree, g.tag())
+		} else {
+			g.t(gSpace, g.tag())
+		}
 		g.close()
 	}
 	return false
